@@ -8,7 +8,7 @@ Four case kinds (case['kind']):
            step that str() and the structural image (O-struct) of the ORIGINAL are what they were.
   pair   : two statements (identical text / single-token variant / unrelated): for the trees, a few of their sub-nodes,
            their TableColumns and foreign objects: x == x is True, (x == y) is (y == x) and both are bool,
-           x == y  =>  str(x) == str(y).
+           x == y  =>  str(x) == str(y); when the two trees have the same shape every node is also compared with its counterpart.
   plan   : plan a statement over a fixed catalog (twice, and optionally a single-token variant): the same laws over
            steps and plans, QueryPlan(steps) == QueryPlan(deep-copied steps) is True, equality ignores set_result(),
            every reachable Result hashes and equal Results hash equal.
@@ -41,7 +41,9 @@ RULE = ('tree cases = (dialect, accepted text, copy()|deepcopy, <= 10 drawn in-p
         'written as quoted strings of dots at every string position, 300-400 operator chains, odd name parts (a quoted part whose '
         'text is special somewhere: * . ` keyword digits blank ...) at every position of 1..3-part names x places of a statement '
         'and at the names after a dot of the corpus statements, twin plans (one statement of a join/read-a-model family or of the '
-        'corpus x catalogs that differ in what the models are, steps compared across the plans).  '
+        'corpus x catalogs that differ in what the models are, steps compared across the plans), e vs (e) for 22 expressions in 17 '
+        'places and quoted vs plain values (state that to_tree() does not show).  Pair cases of two trees of the same shape also '
+        'compare every node with its counterpart.  '
         'non-trivial = tree case whose copy has >= 3 mutable objects and >= 1 mutation hit a nested (non-root) object; pair '
         'case with >= 4 compared objects; plan case that planned with >= 1 step; distinct by the whole case')
 ASSUMPTIONS = ['"no shared mutable" = the id() sets of library objects, lists, dicts and sets reachable from the original and from '
@@ -54,14 +56,16 @@ FLOORS = {'quick': {'__nontrivial__': 3000, 'kind:tree': 2000, 'kind:pair': 350,
                     'mut:parts-item': 500, 'mut:alias': 1200, 'mut:flip-parentheses': 1500, 'mut:list-pop': 500, 'mut:set-field': 4000,
                     'relation:ws-variant': 400, 'relation:column-def': 70, 'origin:dotname': 350, 'origin:oddpart': 900, 'has:str-star-last': 80,
                     'kind:twin': 220, 'twin:sub-vs-base': 300, 'twin:sub-vs-base-agree': 160, 'twin:same-class-equal': 750,
-                    'twin:shapes>=2': 110, 'result-pairs': 2000},
+                    'twin:shapes>=2': 110, 'result-pairs': 2000, 'relation:paren-variant': 250, 'relation:quotes-variant': 3,
+                    'pair:counterparts': 5000},
           'thorough': {'__nontrivial__': 9000, 'kind:tree': 6000, 'kind:pair': 1000, 'kind:plan': 1600, 'planned': 1600,
                        'mutation-steps': 36000, 'reached-nested': 6000, 'has:star-part': 1500, 'pair:equal': 6000, 'pair:unequal': 42000,
                        'plan:steps>=2': 330, 'results-hashed': 3600, 'step-pairs': 4800, 'variant-planned': 270, 'mut:dict-set-new': 180,
                        'mut:parts-item': 1500, 'mut:alias': 3600, 'mut:flip-parentheses': 4500, 'mut:list-pop': 1500,
                        'mut:set-field': 12000, 'relation:ws-variant': 1200, 'relation:column-def': 70, 'origin:dotname': 350,
                        'origin:oddpart': 9000, 'has:str-star-last': 350, 'kind:twin': 900, 'twin:sub-vs-base': 600,
-                       'twin:sub-vs-base-agree': 320, 'twin:same-class-equal': 2400, 'twin:shapes>=2': 300, 'result-pairs': 9000}}
+                       'twin:sub-vs-base-agree': 320, 'twin:same-class-equal': 2400, 'twin:shapes>=2': 300, 'result-pairs': 9000,
+                       'relation:paren-variant': 250, 'relation:quotes-variant': 3, 'pair:counterparts': 15000}}
 N = {'quick': 740, 'thorough': 8400}
 
 _LEX = {}
@@ -69,6 +73,7 @@ _SPANS = {}
 _QSPANS = {}            # the statements of _SPANS that have a name or a quoted string
 _PLANNABLE = []          # [(dialect, sql, catalog)]
 _PLAN_SPANS = {}         # (dialect, sql) -> [(type, src)]
+_CSPANS = {}             # the statements of _SPANS that have a constant
 _DOTSPANS = {}           # dialect -> [(spans, [positions of a name token that follows a dot])]
 _MODEL_PLANNABLE = []    # the (dialect, sql, catalog) of _PLANNABLE whose plan applies a model
 
@@ -166,6 +171,18 @@ def plan(tree, catalog):
 
 
 VARIANT_TOKENS = ('INTEGER', 'FLOAT', 'QUOTE_STRING', 'DQUOTE_STRING', 'ID')
+CONSTANT_TOKENS = ('INTEGER', 'FLOAT', 'QUOTE_STRING')
+# state of a node that to_tree() does not show: a pair of parentheses around {e}, quotes around a value
+PAREN_TEMPLATES = ['select {e} from t', 'select a from t where a = {e}', 'select f({e}) from t', 'select a from t order by {e}',
+                   'select {e} as x, 2 from t', 'select a from t where b in ({e}, 2)', 'select a from t where b between {e} and 9',
+                   'select case when a then {e} end from t', 'insert into t (a) values ({e})', 'update t set a = {e}',
+                   'select a from t group by {e}', 'select -{e} from t', 'select {e} + 1 from t', 'select a from t limit 1 offset 2 using k = {e}',
+                   'select cast({e} as int) from t', 'select a from t where {e} is null', 'select * from t1 join t2 on {e} = 1']
+PAREN_VALUES = ['1', '1.5', "'s'", 'a', 't.a', 'null', 'true', '@v', '?', 'f(1)', 'a + 1', 'not a', '(select 1)', 'cast(a as int)', 't.*', '*',
+                'case when a then 1 end', 'a between 1 and 2', 'a in (1)', 'latest', 'count(*)', 'a is null']
+QUOTES_PAIRS = [('set names utf8', "set names 'utf8'"), ('set character set utf8', "set character set 'utf8'"), ('set charset utf8', "set charset 'utf8'"),
+                ('set names utf8 collate utf8_bin', "set names utf8 collate 'utf8_bin'"), ('select interval 1 day', "select interval '1' day"),
+                ('set names default', "set names 'default'"), ('show tables like a', "show tables like 'a'"), ('select a from t limit 1', "select a from t limit '1'")]
 
 
 def prepare(tier):
@@ -182,6 +199,7 @@ def prepare(tier):
                 sp.append([(y[0], y[1]) for y in spans])
         _SPANS[d] = sp
         _QSPANS[d] = [x for x in sp if any(ty in QUOTED for ty, _ in x)]
+        _CSPANS[d] = [x for x in sp if any(ty in CONSTANT_TOKENS for ty, _ in x)]
         _DOTSPANS[d] = [(x, ps) for x in sp for ps in [after_dot_positions(x)] if ps]
     # statements of the corpus that plan over the fixed catalog
     seen = set()
@@ -685,6 +703,13 @@ def judge_pair(case, col):
     for x in A:
         for y in B:
             L.pair(x, y)
+    # two trees of the same shape (a variant in one token / in a pair of parentheses): every node with its counterpart
+    wa, wb = list(walk(Ta)), list(walk(Tb))
+    aligned = 0
+    if Ta is not Tb and len(wa) == len(wb) and all(type(x) is type(y) for x, y in zip(wa, wb)):
+        for x, y in list(zip(wa, wb))[:40]:
+            L.pair(x, y, 'counterparts: ')
+            aligned += 1
     for x in A[:3]:
         for y in FOREIGN:
             L.pair(x, y, 'foreign: ')
@@ -695,6 +720,7 @@ def judge_pair(case, col):
     classes = ['kind:pair', 'relation:' + case.get('relation', '?'), 'stmt:' + clsname(Ta)]
     col.cls(*['pair:equal'] * L.n_equal)
     col.cls(*['pair:unequal'] * L.n_unequal)
+    col.cls(*['pair:counterparts'] * aligned)
     col.case(('pair', a['dialect'], a['sql'], b['dialect'], b['sql']), len(A) + len(B) >= 4, classes,
              {'kind': 'pair', 'a': a, 'b': b, 'compared': len(A) * len(B), 'equal_pairs': L.n_equal})
     return L.out
@@ -855,7 +881,6 @@ def judge_twin(case, col):
             L.pair(Pa, Pb, 'plans of one statement under two catalogs: ')
             sa, sb = all_steps(Pa), all_steps(Pb)
             for x in sa:
-                ix = None
                 for y in sb:
                     n_pairs += 1
                     r = L.pair(x, y, 'steps of one statement under two catalogs: ')
@@ -1023,7 +1048,16 @@ def cases(draw):
         return {'kind': 'tree', 'dialect': d, 'sql': sql, 'how': draw(st.sampled_from(['copy', 'deepcopy'])), 'muts': draw(MUT),
                 'origin': src}
     if kind == 'pair':
-        rel = draw(st.sampled_from(['same', 'variant', 'variant', 'variant', 'unrelated', 'cross-dialect', 'ws-variant']))
+        rel = draw(st.sampled_from(['same', 'variant', 'variant', 'variant', 'unrelated', 'cross-dialect', 'ws-variant', 'paren-variant']))
+        if rel == 'paren-variant':
+            # one constant of a corpus statement put in parentheses: the same nodes, one flag differs
+            d = draw(st.sampled_from(corpus.DIALECTS))
+            spans = draw(st.sampled_from(_CSPANS[d]))
+            toks = [src for _, src in spans]
+            i = draw(st.sampled_from([j for j, (ty, _) in enumerate(spans) if ty in CONSTANT_TOKENS]))
+            b = list(toks)
+            b[i] = '( ' + toks[i] + ' )'
+            return {'kind': 'pair', 'relation': rel, 'a': {'dialect': d, 'sql': ' '.join(toks)}, 'b': {'dialect': d, 'sql': ' '.join(b)}}
         if rel == 'ws-variant':
             d = draw(st.sampled_from(corpus.DIALECTS))
             spans = draw(st.sampled_from(_QSPANS[d]))
@@ -1075,6 +1109,14 @@ def law_cases(tier='quick'):
                 if tier == 'thorough' or j == n % len(pos):
                     a, b = ws_pair_of(spans, i, WS_FILLS[(n + j) % 2])
                     out.append({'kind': 'pair', 'relation': 'ws-variant', 'a': {'dialect': d, 'sql': a}, 'b': {'dialect': d, 'sql': b}})
+    # state that to_tree() does not show: {e} vs ({e}) in every template, quoted vs plain values
+    for d in corpus.DIALECTS:
+        for t in PAREN_TEMPLATES:
+            for e in PAREN_VALUES:
+                out.append({'kind': 'pair', 'relation': 'paren-variant', 'a': {'dialect': d, 'sql': t.replace('{e}', e)},
+                            'b': {'dialect': d, 'sql': t.replace('{e}', '(' + e + ')')}})
+        for a, b in QUOTES_PAIRS:
+            out.append({'kind': 'pair', 'relation': 'quotes-variant', 'a': {'dialect': d, 'sql': a}, 'b': {'dialect': d, 'sql': b}})
     # column definitions: all unordered pairs (and each with itself)
     for i, a in enumerate(COLUMN_DEFS):
         for b in COLUMN_DEFS[i:]:
